@@ -61,6 +61,15 @@ func c12NoMutationInDryRun(r *an.Run, m *runModel) {
 	classes := map[string]int{}
 	diffOn, printOn := m.hyp(map[string]bool{"Diff": true}, nil), m.hyp(map[string]bool{"Print": true}, nil)
 	nd, np := m.decides(diffOn), m.decides(printOn)
+	if nd == 0 || np == 0 {
+		// the mode switch may live in the function the output stage was moved to
+		for _, g := range helperGroup(m.run, 2) {
+			if g != m.run {
+				nd += an.DecidedBranches(g, diffOn)
+				np += an.DecidedBranches(g, printOn)
+			}
+		}
+	}
 	r.Check(nd > 0 && np > 0, short(m.run)+"|mode-branches", m.run.Pos(), "Run takes decisions that depend on opts.Diff (%d) and on opts.Print (%d), directly, through a boolean variable or through a predicate helper", nd, np)
 
 	// guardedSite: the call site executes only when neither --diff nor --print-only is set
@@ -76,6 +85,14 @@ func c12NoMutationInDryRun(r *an.Run, m *runModel) {
 		}
 		if depth > 5 {
 			return false, "call chain too deep to lift to mainCmd.Run"
+		}
+		// the guard may be established in the function that makes the call (the options are one object per
+		// process, identified by type): the call's block cannot execute there with either flag set
+		if g.Parent() == nil && len(g.Blocks) > 0 {
+			b := site.Block()
+			if !an.ReachUnder(g.Blocks[0], diffOn, nil)[b] && !an.ReachUnder(g.Blocks[0], printOn, nil)[b] {
+				return true, ""
+			}
 		}
 		root := g
 		for root.Parent() != nil { // closures (deferred cleanup etc.) run under their enclosing function
@@ -214,12 +231,85 @@ func c12Descriptions(r *an.Run, m *runModel) {
 	}
 	var terminal []use
 	var printers []ssa.CallInstruction // the calls in Run (or the module calls in Run that lead to them) that print descriptions
+	// the functions the output stage lives in: Run, and a function the sinks were moved to
+	hosts := map[*ssa.Function]bool{m.run: true}
+	for _, sk := range sinksOfRun(r, m) {
+		hosts[sk.host] = true
+	}
 	type vt struct {
 		v   ssa.Value
 		top ssa.CallInstruction
 	}
 	seen := map[vt]bool{}
 	var follow func(v ssa.Value, top ssa.CallInstruction)
+	// followField follows field idx of the struct held in the local al: selections in the same function, and
+	// — when the struct value is passed to a module function — the same field of the parameter there. It
+	// reports whether every use of the struct could be followed.
+	var followField func(al *ssa.Alloc, idx int, top ssa.CallInstruction, origin *ssa.Store) bool
+	followAddr := func(addr ssa.Value, idx int, top ssa.CallInstruction) {
+		if addr.Referrers() == nil {
+			return
+		}
+		for _, u := range *addr.Referrers() {
+			if fa, ok := u.(*ssa.FieldAddr); ok && fa.Field == idx && fa.Referrers() != nil {
+				for _, w := range *fa.Referrers() {
+					if ld, ok := w.(*ssa.UnOp); ok {
+						follow(ld, top)
+					}
+				}
+			}
+		}
+	}
+	followField = func(al *ssa.Alloc, idx int, top ssa.CallInstruction, origin *ssa.Store) bool {
+		if al.Referrers() == nil {
+			return false
+		}
+		followAddr(al, idx, top)
+		for _, u := range *al.Referrers() {
+			ld, ok := u.(*ssa.UnOp)
+			if !ok || ld.Referrers() == nil {
+				continue
+			}
+			for _, w := range *ld.Referrers() {
+				switch y := w.(type) {
+				case *ssa.DebugRef:
+				case *ssa.Field:
+					if y.Field == idx {
+						follow(y, top)
+					}
+				case ssa.CallInstruction:
+					h := an.StaticCallee(y)
+					if h == nil || !an.InModule(h) || h.Blocks == nil {
+						return false
+					}
+					t := top
+					if t == nil && y.Parent() == m.run {
+						t = y
+					}
+					for i, a := range y.Common().Args {
+						if a != ssa.Value(ld) || i >= len(h.Params) || h.Params[i].Referrers() == nil {
+							continue
+						}
+						for _, pu := range *h.Params[i].Referrers() {
+							switch z := pu.(type) {
+							case *ssa.Store: // the parameter spilled to a local
+								if z.Val == ssa.Value(h.Params[i]) {
+									followAddr(z.Addr, idx, t)
+								}
+							case *ssa.Field:
+								if z.Field == idx {
+									follow(z, t)
+								}
+							}
+						}
+					}
+				default:
+					return false
+				}
+			}
+		}
+		return true
+	}
 	follow = func(v ssa.Value, top ssa.CallInstruction) {
 		if v == nil || seen[vt{v, top}] {
 			return
@@ -258,14 +348,20 @@ func c12Descriptions(r *an.Run, m *runModel) {
 						continue
 					}
 				}
+				// the value travels as a field of a local struct that is handed to a module function whole
+				if fa, ok := x.Addr.(*ssa.FieldAddr); ok {
+					if al, ok := fa.X.(*ssa.Alloc); ok && followField(al, fa.Field, top, x) {
+						continue
+					}
+				}
 				terminal = append(terminal, use{x, v})
 			case ssa.CallInstruction:
 				if an.IsCallTo(x, "builtin:len") {
 					continue
 				}
 				t := top
-				if t == nil && x.Parent() == m.run {
-					t = x
+				if (t == nil || t.Parent() == m.run && hosts[x.Parent()] && x.Parent() != m.run) && hosts[x.Parent()] {
+					t = x // the call in the output stage's own function is the site whose guards are examined
 				}
 				if h := an.StaticCallee(x); h != nil && an.InModule(h) && h.Blocks != nil {
 					for i, a := range x.Common().Args {
@@ -314,9 +410,17 @@ func c12Descriptions(r *an.Run, m *runModel) {
 		}
 		done[c] = true
 		n++
-		onMatched := m.unreachableUnder(c.Block(), unmatched)
+		site := c // where Run makes (or leads to) the call
+		inDryRun := m.unreachableUnder(c.Block(), neither)
+		if c.Parent() != m.run {
+			inDryRun = !an.ReachUnder(c.Parent().Blocks[0], neither, nil)[c.Block()]
+			if sc, ok := siteIn(m.run, c).(ssa.CallInstruction); ok {
+				site = sc
+			}
+		}
+		onMatched := site.Parent() == m.run && m.unreachableUnder(site.Block(), unmatched)
 		r.Check(onMatched, short(m.run)+"|described-only-when-applied|"+an.TrimModule(an.CalleeName(c)), c.Pos(), "descriptions are printed only for files to which a change applied")
-		r.Check(m.unreachableUnder(c.Block(), neither), short(m.run)+"|described-only-in-dry-run|"+an.TrimModule(an.CalleeName(c)), c.Pos(), "descriptions are printed only in the --diff / --print-only arms")
+		r.Check(inDryRun, short(m.run)+"|described-only-in-dry-run|"+an.TrimModule(an.CalleeName(c)), c.Pos(), "descriptions are printed only in the --diff / --print-only arms")
 	}
 	r.Count("description call sites", n)
 	r.Min("description call sites", 2)
